@@ -138,6 +138,9 @@ func appendsStringProblem(from, to *ssa.BasicBlock) bool {
 		}
 		seen[b] = true
 		for _, in := range b.Instrs {
+			if recordsProblem(in, 0) {
+				return true
+			}
 			if c, ok := in.(*ssa.Call); ok {
 				if a := isAppend(c); a != nil {
 					if st, ok := a.Type().Underlying().(*types.Slice); ok && types.Identical(st.Elem(), types.Typ[types.String]) {
@@ -745,6 +748,9 @@ func argumentBound(val *ssa.Function, recv *ssa.Parameter) (bool, int64) {
 	}
 	blockAppends := func(b *ssa.BasicBlock) bool {
 		for _, in := range b.Instrs {
+			if recordsProblem(in, 0) {
+				return true
+			}
 			if c, ok := in.(*ssa.Call); ok {
 				if a := isAppend(c); a != nil {
 					if st, ok := a.Type().Underlying().(*types.Slice); ok && types.Identical(st.Elem(), types.Typ[types.String]) {
@@ -828,4 +834,48 @@ func argumentBound(val *ssa.Function, recv *ssa.Parameter) (bool, int64) {
 		}
 	}
 	return max >= 0 && max <= 64, max
+}
+
+
+// recordsProblem: the instruction appends to a list of problem strings - directly, or by calling a closure / method /
+// function of the package on every path of which such an append happens (a `report(...)` helper).
+func recordsProblem(in ssa.Instruction, depth int) bool {
+	c, ok := in.(*ssa.Call)
+	if !ok || depth > 2 {
+		return false
+	}
+	if a := isAppend(c); a != nil {
+		st, ok := a.Type().Underlying().(*types.Slice)
+		return ok && types.Identical(st.Elem(), types.Typ[types.String])
+	}
+	h := c.Call.StaticCallee()
+	if h == nil || len(h.Blocks) == 0 || h.Pkg == nil || !strings.HasPrefix(h.Pkg.Pkg.Path(), load.Module) {
+		return false
+	}
+	// must-analysis: every path from the entry to a return passes a recording instruction
+	g := flow.G(h)
+	seen := map[*ssa.BasicBlock]bool{}
+	var must func(b *ssa.BasicBlock) bool
+	must = func(b *ssa.BasicBlock) bool {
+		if seen[b] {
+			return true
+		}
+		seen[b] = true
+		for _, x := range b.Instrs {
+			if recordsProblem(x, depth+1) {
+				return true
+			}
+		}
+		succs := g.Succs(b)
+		if len(succs) == 0 {
+			return false
+		}
+		for _, sx := range succs {
+			if !must(sx) {
+				return false
+			}
+		}
+		return true
+	}
+	return must(h.Blocks[0])
 }
